@@ -261,6 +261,23 @@ def p_sizeparam(c):
     return {"out": c.x + c.recv(prev, ("sp", prev)), "big": z * 3}
 
 
+def p_nested_holder(c):
+    # a later-round send stapled *inside the data* of an earlier-round send
+    # (the holder's value is its passthrough data, so the earlier send does
+    # not depend on the later receive)
+    if c.rank == 0:
+        b = c.recv(1, "b")
+        inner = pt.staple_distributed_send(b + c.x, 1, "c",
+                                           stapled_to=c.x * 5)
+        c.send(inner * 2, 1, "a")
+        return {"out": c.x + 1}
+    if c.rank == 1:
+        a = c.recv(0, "a")
+        c.send(a + c.x, 0, "b")
+        return {"out": a * c.recv(0, "c")}
+    return {"out": c.x}
+
+
 def p_nocomm(c):
     return {"out": c.x + 1, "aux": pt.sin(c.x)}
 
@@ -300,13 +317,17 @@ PROGRAMS = {
     "sent_reused_later": p_sent_reused_later, "stored_chain": p_stored_chain,
     "nocomm": p_nocomm, "sizeparam": p_sizeparam,
 }
+#: valid programs the pinned tree is known to reject (known_findings.json);
+#: kept out of the family the fault-injection / executor contracts build on
+EXTRA_VALID_PROGRAMS = {"nested_holder": p_nested_holder}
 
 # }}}
 
 
 def build_rank(prog, rank, size, fault=None, staple="chain"):
     ctx = RankCtx(rank, size, fault, staple)
-    outs = (PROGRAMS.get(prog) or INVALID_PROGRAMS[prog])(ctx)
+    outs = (PROGRAMS.get(prog) or EXTRA_VALID_PROGRAMS.get(prog)
+            or INVALID_PROGRAMS[prog])(ctx)
     return ctx, ctx.finish(outs)
 
 
